@@ -20,7 +20,7 @@ ID = 'C09'
 
 MANIFEST = {
     'engine': 'symx',
-    'text': 'The OS scheduler is not what a solver can decide; the pool is replaced by its documented contract and the SCHEDULE becomes data: a symbolic evaluation order of the tasks, a symbolic partition into 1..3 workers (each worker runs on its own copy of the module-level state, as a forked process would), a symbolic completion order for unordered maps, a symbolic permutation for random.shuffle, and - for fresh-run reproducibility - a symbolic iteration order of every set the batch code builds (models PYTHONHASHSEED). The real mixed_rank_graph / get_importances_estimate_pairwise / get_grouped_df / compute_batch_ranking run with the real numba scorer on a concrete 8-row frame; on every path the triplets, their aggregation and every (pair -> score) must equal the serial reference, and each score must equal a direct recomputation for the names carried in its triplet. Pool workers persist across map calls of one pool: a second mini-batch with other data goes through the same pool and must equal a fresh serial run; runs with a sampling ratio < 1 are compared as well.',
+    'text': 'The OS scheduler is not what a solver can decide; the pool is replaced by its documented contract and the SCHEDULE becomes data: a symbolic evaluation order of the tasks, a symbolic partition into 1..3 workers (each worker runs on its own copy of the module-level state, as a forked process would), a symbolic completion order for unordered maps, a symbolic permutation for random.shuffle, and - for fresh-run reproducibility - a symbolic iteration order of every set the batch code builds (models PYTHONHASHSEED). The real mixed_rank_graph / get_importances_estimate_pairwise / get_grouped_df / compute_batch_ranking run with the real numba scorer on a concrete 8-row frame; on every path the triplets, their aggregation and every (pair -> score) must equal the serial reference, and each score must equal a direct recomputation for the names carried in its triplet. Pool workers persist across map calls of one pool: a second mini-batch with other data goes through the same pool and must equal a fresh serial run; runs with a sampling ratio < 1 are compared as well. The mapped closure reaches a worker by pickling: for two further frames (an id-like column at ratio 0.5; columns named like interaction features) every worker runs its own deep copy of the closure, the reference gives every task its own copy, and candidates are replayed on the REAL pathos pool at several sizes, task orders and chunk sizes.',
     'note': 'Schedules of the 4 tasks of a target-only batch (24 orders x worker partitions) and of 3-5 tasks for shuffle/set-order; the OS scheduler, pathos internals and real process start-up are outside (contract stub); surrogate heuristics drawing from per-worker RNG state are outside. A set-order dependence is confirmed by re-running the real pipeline under different PYTHONHASHSEED values.',
     'technique': 'solver-driven bounded exploration of schedules over the real Python code with a contract stub of the pool and an AST-level set-order abstraction (z3 decides every schedule choice; coverage certificate)',
 }
